@@ -123,6 +123,20 @@ impl Clone for Tr {
     }
 }
 
+/// One call of a `Default::default` that is a callback like `Tr`'s: counted by the clone/default call counter, the
+/// armed call index panics.  For element types defined elsewhere (plain ones without drop glue).
+pub fn default_call() {
+    let k = CLONE_CALLS.with(|c| {
+        let v = c.get();
+        c.set(v + 1);
+        v
+    });
+    if BOMB_CLONE.with(|b| b.get()) == Some(k) {
+        BOMB_CLONE.with(|b| b.set(None));
+        panic!("injected default panic");
+    }
+}
+
 /// `Default` is a callback like `Clone`: the k-th call can be armed to panic
 /// (same counter as `clone`); the new identity comes from the global counter.
 impl Default for Tr {
